@@ -591,6 +591,99 @@ func ownValues(c *engine.Ctx, G int) workload {
 	return w
 }
 
+// sharedArguments: every goroutine builds its OWN values, but from argument slices that all goroutines share and
+// only read (limits, frequencies, factor lists, codes, word lists, vertex lists, patterns).  The reference instance
+// (fresh = true) gives every call a private copy of the same arguments.
+func sharedArguments(c *engine.Ctx, G int, fresh bool) workload {
+	w := workload{name: "shared-arguments"}
+	limits := []int{3, 2, 4, 1, 3}
+	freq := []int{2, 1, 2}
+	factors := []int{2, 3, 2}
+	setA := sortints.NewSortedInts(1, 3, 4, 8, 9, 12, 20)
+	setB := sortints.NewSortedInts(0, 3, 5, 8, 13, 20, 21)
+	code := []int{3, 3, 0, 5, 1, 1}
+	r := c.Rand("c19-shared-args", 0)
+	base := gen.Random(r, 10, 0.4)
+	edgeBytes := base.EdgeBytes()
+	multicode := []byte{5, 2, 3, 0, 3, 4, 0, 5, 0, 0}
+	V := []int{7, 2, 9, 0, 4}
+	ws := words(r, 60, 4)
+	subset := []int{1, 4, 6, 9}
+	pattern := []byte("a??")
+	if len(ws) > 0 {
+		pattern = append([]byte{}, ws[len(ws)/2]...)
+		if len(pattern) > 1 {
+			pattern[1] = '?'
+		}
+	}
+	shared, _ := dawg.New(ws)
+	ints0 := func(a []int) []int {
+		if fresh {
+			return append([]int{}, a...)
+		}
+		return a
+	}
+	bytes0 := func(a []byte) []byte {
+		if fresh {
+			return append([]byte{}, a...)
+		}
+		return a
+	}
+	for g := 0; g < G; g++ {
+		g := g
+		ops := []op{
+			{"iterators over shared argument slices", func() string {
+				var sb strings.Builder
+				mc := itertools.MultisetCombinations(ints0(limits), 1+g%6)
+				for mc.Next() {
+					sb.WriteString(fp(mc.Value()))
+				}
+				mp := itertools.MultisetPermutations(ints0(freq))
+				for mp.Next() {
+					sb.WriteString(fp(mp.Value()))
+				}
+				pr := itertools.Product(ints0(factors)...)
+				for pr.Next() {
+					sb.WriteString(fp(pr.Value()))
+				}
+				rq := itertools.RestrictedPrefixProduct(func(a []int) bool { return len(a) < 2 || a[len(a)-1] != a[len(a)-2] }, ints0(factors)...)
+				for rq.Next() {
+					sb.WriteString(fp(rq.Value()))
+				}
+				return fmt.Sprintf("%x", hash(sb.String()))
+			}},
+			{"sets, ranks and codes from shared arguments", func() string {
+				a, b := sortints.SortedInts(ints0(setA)), sortints.SortedInts(ints0(setB))
+				t := graph.PruferDecode(ints0(code))
+				d := graph.NewDense(10, bytes0(edgeBytes))
+				mg := graph.MulticodeDecode(bytes0(multicode))
+				return fp(sortints.Union(a, b), sortints.Intersection(a, b), sortints.XOR(a, b), sortints.SetMinus(a, b), sortints.ContainsSorted(a, b), sortints.IntersectionSize(a, b),
+					comb.Rank(ints0(subset)), graph.Graph6Encode(t), graph.Graph6Encode(d), graph.Graph6Encode(mg),
+					graph.Graph6Encode(graph.InducedSubgraph(d, ints0(V))), graph.Graph6Encode(d.InducedSubgraph(ints0(V))))
+			}},
+			{"dawg from a shared word list, searchers from shared patterns", func() string {
+				var wl [][]byte
+				if fresh {
+					for _, x := range ws {
+						wl = append(wl, append([]byte{}, x...))
+					}
+				} else {
+					wl = ws
+				}
+				d, err := dawg.New(wl)
+				if err != nil {
+					return "error " + err.Error()
+				}
+				s1, i1 := d.Search(dawg.NewPatternSearcher(bytes0(pattern), '?'))
+				s2, i2 := shared.Search(dawg.NewAnagramSearcher(bytes0(pattern), '?'))
+				return fp(d.NumberOfWords(), hashWords(s1), i1, hashWords(s2), i2)
+			}},
+		}
+		w.ops = append(w.ops, ops)
+	}
+	return w
+}
+
 func combTables(G int) workload {
 	w := workload{name: "comb"}
 	for g := 0; g < G; g++ {
@@ -814,6 +907,10 @@ func run(c *engine.Ctx) {
 			{"shared-graphs", func() (workload, error) { return sharedGraphs(c, G), nil }},
 			{"own-values", func() (workload, error) { return ownValues(c, G), nil }},
 			{"own-graphs", func() (workload, error) { return ownGraphs(c, G), nil }},
+			{"shared-arguments", func() func() (workload, error) {
+				calls := 0
+				return func() (workload, error) { calls++; return sharedArguments(c, G, calls == 2), nil } // 1st: the concurrent instance, 2nd: the reference
+			}()},
 			{"shared-large-graphs", func() (workload, error) { return sharedLarge(c, G), nil }},
 			{"comb", func() (workload, error) { return combTables(G), nil }},
 			{"clique-producers", func() (workload, error) { return cliqueProducers(c, G), nil }},
